@@ -265,8 +265,22 @@ struct Expected {
 
 static EXPECTED: OnceLock<Expected> = OnceLock::new();
 
+/// Seventy wrappers around a small envelope (deeper than any 6-bit level counter), and a leaf that is a CBOR map
+/// holding a tagged value whose summarizer itself encodes CBOR (a PublicKeys).
+fn deep_envelope() -> Envelope {
+    let keys = bc_components::PrivateKeyBase::from_data(vec![0x42u8; 32]).schnorr_public_keys();
+    let mut map = dcbor::Map::new();
+    map.insert(1u64, CBOR::from(keys));
+    map.insert(2u64, "two");
+    let mut e = Envelope::new("core").add_assertion("holds", CBOR::from(map));
+    for _ in 0..70 {
+        e = e.wrap_envelope();
+    }
+    e
+}
+
 fn envs() -> Vec<Envelope> {
-    vec![probe_envelope(), plain_envelope()]
+    vec![probe_envelope(), plain_envelope(), deep_envelope()]
 }
 
 /// Run every operation alone (single-threaded, from uninitialised registries). A failure here is already a
@@ -425,7 +439,7 @@ fn scenario(wl: Workload) {
     let mut plans: Vec<Vec<(Op, usize)>> = vec![];
     for _ in 0..nthreads {
         let k = 1 + draw(wl.max_ops as u64) as usize;
-        plans.push((0..k).map(|_| (pool[draw(pool.len() as u64) as usize], draw(2) as usize)).collect());
+        plans.push((0..k).map(|_| (pool[draw(pool.len() as u64) as usize], [0usize, 1, 0, 1, 2][draw(5) as usize])).collect());
     }
     let mut handles = vec![];
     for (t, plan) in plans.into_iter().enumerate() {
